@@ -646,6 +646,10 @@ class BaseRequest(MutableMapping[str | RequestKey[Any], Any], HeadersMixin):
 
             if start is None and end is not None:
                 # end with no start is to return tail of content
+                if end == 0:
+                    # RFC 9110 section 14.1.2: a suffix-length of zero
+                    # is unsatisfiable
+                    raise ValueError("suffix length cannot be zero")
                 start = -end
                 end = None
 
